@@ -197,6 +197,9 @@ def run(ctx) -> Result:
               bad_detail=f"_kwik_sort called with {[val(a) for a in calls[0].args] if calls else None}")
     res.not_decided.append("the implication 'coherent pairwise preferences => same ranking for every pivot sequence' "
                            "(mathematics over V1-V4, not code shape)")
+    if not res.violations:      # the end-to-end pass adds nothing to an established violation (and may not terminate on it)
+        from . import e2e
+        e2e.check(res, ctx.proj, "C11", ctx.thorough)
     return res
 
 
